@@ -74,6 +74,16 @@ func NewV2(root *expr.RootExpr, h *expr.HostExpr) (*V2, error) {
 				continue
 			}
 			buildPathFromFileServer(s, root, fs)
+			if fs.IsDir() {
+				// The generated server also mounts the directory itself
+				// ("/dir/" next to "/dir/{*filepath}").
+				dir := *fs
+				dir.RequestPaths = make([]string, len(fs.RequestPaths))
+				for i, p := range fs.RequestPaths {
+					dir.RequestPaths[i] = p[:strings.LastIndex(p, "/{")+1]
+				}
+				buildPathFromFileServer(s, root, &dir)
+			}
 		}
 		for _, a := range res.HTTPEndpoints {
 			if !openapi.MustGenerate(a.Meta) || !openapi.MustGenerate(a.MethodExpr.Meta) {
